@@ -363,7 +363,7 @@ def pipeline_render(cfg):
     def fn(name):
         if name in table:
             return table[name]
-        return eval(name, {}, dict(ctx))
+        return eval(name, {}, dict(ctx, u=7))
 
     local, d, pg = cfg["local"], cfg["default_filters"], cfg["page_expression_filter"]
     d = ["str"] if d is None else d
@@ -388,7 +388,18 @@ def pipeline_render(cfg):
     src = ""
     if pg is not None:
         src += '<%%page expression_filter="%s"/>' % ", ".join(pg).replace('"', "'")
-    src += "${x%s}" % ((" | " + ", ".join(local)) if local else "")
+    sp = cfg.get("spelling", "plain")
+    if not local:
+        flt = ""
+    elif sp == "newline-after-comma":
+        flt = " | " + ",\n     ".join(local)
+    elif sp == "comment-after-last":
+        flt = " | " + ", ".join(local) + "  # the filters\n"
+    elif sp == "leading-newline":
+        flt = " |\n   " + ", ".join(local) + "\n"
+    else:
+        flt = " | " + ", ".join(local)
+    src += "${x%s}" % flt
     kw = {}
     if cfg["default_filters"] is not None:
         kw["default_filters"] = cfg["default_filters"]
@@ -402,7 +413,7 @@ def pipeline_render(cfg):
     # once as configured, once more under strict_undefined (the filter flags are not variables; the filter functions are given)
     for strict in (False, True):
         try:
-            got = Template(src, strict_undefined=strict, **kw).render_unicode(x=obj, **({k: v for k, v in ctx.items() if k != "x"} if strict else {}))
+            got = Template(src, strict_undefined=strict, **kw).render_unicode(x=obj, u=7, **({k: v for k, v in ctx.items() if k != "x"} if strict else {}))
         except (TypeError, AttributeError) as e:
             got = "raised: the filter does not take an object"
         except Exception as e:
@@ -770,7 +781,7 @@ def pipeline_render_nonexpr(cfg, where):
              "entity": filters.html_entities_escape, "unicode": str, "str": str, "decode.utf8": filters.decode.utf8}
 
     def fn(name):
-        return table[name] if name in table else eval(name, {}, dict(ctx))
+        return table[name] if name in table else eval(name, {}, dict(ctx, u=7))
 
     local, d, pg = cfg["local"], cfg["default_filters"], cfg["page_expression_filter"]
     expected = value
@@ -797,11 +808,15 @@ def pipeline_render_nonexpr(cfg, where):
     mod = types.ModuleType("c02_filters_mod")
     mod.__dict__.update(ctx)
     mod.__all__ = list(ctx)
+    if where == "buffer_filters":
+        # buffer_filters are configuration, not template text: their names are module-level names
+        mod.u = 7
+        mod.__all__.append("u")
     sys.modules["c02_filters_mod"] = mod
     kw["imports"] = ["from c02_filters_mod import " + ", ".join(mod.__all__)]
     for strict in (False, True):
         try:
-            got = Template(src, strict_undefined=strict, **kw).render_unicode(**(dict(ctx) if strict else {}))
+            got = Template(src, strict_undefined=strict, **kw).render_unicode(u=7, **(dict(ctx) if strict else {}))
         except Exception as e:
             got = "raised %s: %s%s" % (type(e).__name__, e, " (strict_undefined)" if strict else "")
         if got != expected:
